@@ -210,10 +210,11 @@ class EdgeFam(Fam):
     def make(self, spec):
         c = spec["case"]
         kw = {"joint_space": c["joint_space"]}
+        g, o = c.get("index_gap", 1), c.get("index_offset", 0)
         if c["fixed"] in ("row", "both"):
-            kw["row_label_dictionary"] = {t: i for i, t in enumerate(c["row_labels"])}
+            kw["row_label_dictionary"] = {t: g * i + o for i, t in enumerate(c["row_labels"])}
         if c["fixed"] in ("col", "both"):
-            kw["column_label_dictionary"] = {t: i for i, t in enumerate(c["col_labels"])}
+            kw["column_label_dictionary"] = {t: g * i + o for i, t in enumerate(c["col_labels"])}
         return lib()["v"].EdgeListVectorizer(**kw)
 
 
